@@ -170,6 +170,10 @@ pub fn model_step(t: &IdealTree, op: &TreeOp) -> Expect {
             let nothing = nothing || (vs.is_empty() && rem.iter().all(|r| *r >= t.hwm && *r < cap));
             if nothing {
                 Expect { ok: Some(same()), err: vec![same()] }
+            } else if vs.is_empty() && !fits && rem_ok {
+                // no leaves to write and a start position beyond capacity: the (empty) range is either
+                // rejected or ignored; the text does not say which
+                Expect { ok: Some(apply(t)), err: vec![same()] }
             } else if fits && rem_ok {
                 Expect { ok: Some(apply(t)), err: vec![] }
             } else if fits {
